@@ -26,6 +26,11 @@ def spec(tier, seed):
         crls += [CrlShape(revoked=(r,), invalidity=1) for r in (1, 5, 8, 10)] + [CrlShape(idp=1, idp_uris=2), CrlShape(kid_len=0, revoked=(3,))]
     qs = [cert_query("c04", s, O_C04) for s in certs] + [csr_query("c04", s, O_C04) for s in csrs] + [crl_query("c04", s, O_C04) for s in crls]
     qs += u.ku_queries("c04", 2, tier, seed) + u.serial_queries("c04", tier) + u.algid_queries("c04")
+    # time forms: the C09 query (every date-time, offset and nanosecond) also decides "time values in the exact RFC 5280 forms"
+    from props import c09
+    tq = c09.q_enc(-1, 9999, timeout=1500)
+    tq.name = "c04_time_forms"
+    qs.append(tq)
     qs.append(Query(name="c04_spki", body="    units::spki_strict();", unwind=60, family="spki", functions=["rcgen::KeyPair::public_key_der"],
                     shape="KeyPair::public_key_der for every table algorithm (concrete) with 2 symbolic key bytes: strict DER"))
     return {"queries": qs, "exhaustive": False,
